@@ -76,12 +76,17 @@ def gen_lines(tier, seed):
 
         def ts():
             k = r.random()
+            if k < 0.06:
+                # the very last representable second: secs*tps + ticks <= 2^63-1 still holds for small ticks
+                s = lim
+                t = r.choice([0, I64MAX % tps, (I64MAX % tps) // 2])
+                return s, min(t, tps - 1, I64MAX - lim * tps)
             if k < 0.3:
-                s = r.choice([0, 1, 2 ** 31 - 1, 2 ** 31, 2 ** 32 - 1, 2 ** 32, 9223372036, lim - 1, lim // 2])
+                s = r.choice([0, 0, 1, 2 ** 31 - 1, 2 ** 31, 2 ** 32 - 1, 2 ** 32, 9223372036, lim - 1, lim // 2])
                 s = max(0, min(s, lim - 1))
             else:
                 s = r.randrange(0, min(lim, 2 ** 40))
-            t = r.choice([0, 1, tps - 1, tps // 2]) if r.random() < 0.5 else r.randrange(0, tps)
+            t = r.choice([0, 0, 1, tps - 1, tps // 2]) if r.random() < 0.5 else r.randrange(0, tps)
             return s, min(t, tps - 1)
         (s, t), (rs, rt) = ts(), ts()
         off(s, t, rs, rt, tps)
@@ -131,10 +136,12 @@ def run(tier, seed):
         r = gen.seeded(seed, 'C17b', i)
         tps = r.choice([1, 1000, 10 ** 6, 10 ** 9])
         pre = gen.gen_preamble(r, nbps=1, tps=tps, maxi=r.choice([3, 7, 50, 10000]), hints=(gen.ALL_QRH, gen.ALL_SIGH, 3, 3) if i % 3 else None)
-        base = r.randrange(10, 2 * 10 ** 9)
+        base = r.randrange(10, 2 * 10 ** 9) if i % 6 else r.choice([0, 0, 1, 3])     # also instants at / next to the epoch itself
         ops = []
         for k in range(r.choice([3, 6, 12, 30])):
             ts = [max(0, base + r.randrange(-8, 9)), r.randrange(0, tps)]
+            if i % 6 == 0 and r.random() < 0.4:
+                ts = [r.choice([0, 0, 1]), min(tps - 1, r.choice([0, 0, 1, tps - 1]))]
             x = r.random()
             rec = {'tid': k}
             if r.random() < 0.75:
@@ -151,6 +158,8 @@ def run(tier, seed):
                 items = []
                 for kk in range(r.choice([1, 3])):
                     tsd = [max(0, base + r.randrange(-8, 9)), r.randrange(0, tps)]
+                    if i % 6 == 0 and r.random() < 0.4:
+                        tsd = [0, 0]
                     items.append({'k': r.choice(['rawqr', 'rawmm']), 'r': {'ts': tsd, 'cport': kk}} if r.random() < 0.7 else {'k': 'rawqr', 'r': {'cport': kk}})
                 ops.append({'op': 'dblock', 'bp': 0, 'items': items})
         ops.append({'op': 'wb'})
